@@ -6,6 +6,7 @@ import Desync.Model.IndexCodec
 import Desync.Model.Chunker
 import Desync.Model.Goodbye
 import Desync.Model.Archive
+import Desync.Model.FormatWalk
 import Desync.Model.Mode
 import Desync.Model.Protocol
 import Desync.Model.VerifyIndex
@@ -167,6 +168,19 @@ def cmdFmtNext (a : Args) : String :=
     match decNext { rest := b } with
     | .ok (none, _) => "ok end"
     | .ok (some e, s) => s!"ok {elemStr e} rest={s.rest.length} alloc={s.alloc}"
+    | .err e => "err " ++ e.name
+    | .panic _ => "panic"
+
+/-- `fmt.walk bytes= takes=k1,k2,…` : `FormatDecoder.Next` until the end; after the i-th payload
+    element the caller reads `k_i` bytes of it (nothing once the list is used up) -/
+def cmdFmtWalk (a : Args) : String :=
+  match a.bytes "bytes" with
+  | none => "bad-op"
+  | some b =>
+    let takes := if a.get "takes" = "" then [] else ((a.get "takes").splitOn ",").filterMap (·.toNat?)
+    match fmtWalk b takes with
+    | .ok l => "ok " ++ String.intercalate ";" (l.map fun (e, d) =>
+        if e.isPayload then elemStr e ++ "=" ++ toHex d else elemStr e)
     | .err e => "err " ++ e.name
     | .panic _ => "panic"
 
@@ -613,6 +627,7 @@ def runLine (l : String) : String :=
     | "chunk.fromstorage" => cmdFromStorage a
     | "verify.index" => cmdVerifyIndex a
     | "fmt.next" => cmdFmtNext a
+    | "fmt.walk" => cmdFmtWalk a
     | "arch.untar" => cmdUntar a
     | "arch.tar" => cmdTar a
     | "mode.s2f" => cmdMode "s2f" a
